@@ -63,4 +63,14 @@ theorem searchTable_eq (main : List Lang) (pubid sysid root : Option Bytes) :
   rw [e]
   cases byPub main pubid <;> cases bySys main sysid <;> simp
 
+/-- Whatever `searchTable` answers is an entry of the table. -/
+theorem searchTable_mem (main : List Lang) (pubid sysid root : Option Bytes) (l : Lang)
+    (h : searchTable main pubid sysid root = some l) : l ∈ main := by
+  rw [searchTable_eq] at h
+  simp only [Option.or_eq_some_iff, byPub, bySys, byRoot, Option.bind_eq_some_iff] at h
+  rcases h with (⟨p, _, h⟩ | ⟨_, s, _, h⟩) | ⟨_, r, _, h⟩
+  · exact List.mem_of_find?_eq_some h
+  · exact List.mem_of_find?_eq_some h
+  · split at h <;> exact List.mem_of_find?_eq_some h
+
 end Wbxml.Lemmas.Ident
